@@ -31,6 +31,7 @@ type Profile struct {
 	Simple         bool // tables of short plain cells (every output mode can be parsed back)
 	SimpleEvery    int  // every n-th case uses Simple tables
 	OrderLimit     bool // the ORDER BY + LIMIT family: duplicate rows, every limit from 0 to one past the row count
+	TrigFamily     bool // GROUP BY ... TRIGGER COUNTING n over keys that fire repeatedly, with and without a change of the aggregates
 	Logic          bool // the three-valued-logic family: WHERE / select expressions over nullable and non-nullable columns
 	Nested         bool // the nested-relation family: an outer select reading part of a DISTINCT / grouping / limited relation
 }
